@@ -337,7 +337,7 @@ def show(t: Any) -> str:
         return ("[" if k == "list" else "(" if k == "tuple" else "{") + ", ".join(show(x) for x in t[1]) + \
                ("]" if k == "list" else ")" if k == "tuple" else "}")
     if k == "isinstance":
-        return f"isinstance({show(t[1])}, {t[2]})"
+        return f"isinstance({show(t[1])}, {t[2] if isinstance(t[2], str) else show(t[2])})"
     if k == "dict":
         return "{" + ", ".join(f"{show(a)}: {show(b)}" for a, b in t[1]) + "}"
     if k == "sub":
@@ -931,7 +931,8 @@ class Evaluator:
                 return v
             raise Unsupported("unary operator")
         if isinstance(e, ast.BoolOp):
-            vals = [self.truthy(self.expr(v, fr)) for v in e.values]
+            # ``warnings.warn(..)`` evaluates to None: as an operand of and / or it is a false one (its report is no state of the program)
+            vals = [FALSE if self._is_warn_call(v, fr) else self.truthy(self.expr(v, fr)) for v in e.values]
             return t_and(*vals) if isinstance(e.op, ast.And) else t_or(*vals)
         if isinstance(e, ast.Compare):
             left = self.expr(e.left, fr)
@@ -1299,6 +1300,17 @@ class Evaluator:
     def truthy(self, v: Term) -> Term:
         return v
 
+    def _is_warn_call(self, e: ast.AST, fr: Frame) -> bool:
+        """``warn(..)`` / ``warnings.warn(..)`` of the standard library (the name is not rebound locally)"""
+        if not isinstance(e, ast.Call) or fr.module is None:
+            return False
+        f = e.func
+        if isinstance(f, ast.Name) and f.id not in fr.env:
+            return fr.module.imports.get(f.id) == ("warnings", "warn")
+        if isinstance(f, ast.Attribute) and f.attr == "warn" and isinstance(f.value, ast.Name) and f.value.id not in fr.env:
+            return fr.module.imports.get(f.value.id) == ("warnings", None)
+        return False
+
     def compare(self, op: str, a: Term, b: Term, fr: Frame) -> Term:
         # tuple equality -> conjunction
         if op in ("==", "!=") and a[0] == "tuple" and b[0] == "tuple" and len(a[1]) == len(b[1]):
@@ -1489,7 +1501,7 @@ class Evaluator:
         sub.effects = []
         outs = sub.eval_function(f, args=dict(args, __use_defaults__=True), self_term=self_term, self_cls=self_cls,
                                  depth=fr.depth + 1)
-        if sub.effects:
+        if any(not (isinstance(st_, ast.Expr) and self._is_warn_call(st_.value, Frame(f, f.module, {}, self_cls, fr.depth + 1))) for _, st_, _ in sub.effects):
             raise Unsupported(f"{f.qualname} has statement effects; not inlined")
         self.types.update(sub.types)
         self.inlined.append(f.qualname)
@@ -1577,6 +1589,9 @@ class Evaluator:
                     names = [x[1] for x in (args[1][1] if args[1][0] == "tuple" else [args[1]]) if x[0] == "cls"]
                     if names:
                         return t_or(*[("isinstance", args[0], nm) for nm in names])
+                    if subterms(args[1], lambda y: y[0] == "bound"):
+                        # the class comes out of a table that is being walked: kept as a term, decided once the element is known (subst)
+                        return ("isinstance", args[0], args[1])
                     return ("isinstance", args[0], show(args[1]))
                 if n == "dict" and not args and not kwargs:
                     return ("dict", ())
@@ -1929,6 +1944,8 @@ class Evaluator:
                 if ec is not None:
                     self.set_type(b, ec)
                 img = self.apply_callable(args[0], b, fr, tuple(rep_of(a) for a in args[2:]))
+                if img is None and len(args) == 3:
+                    img = self._apply_binary(args[0], b, rep_of(args[2]), fr)       # operator.sub / add / ... as the mapped function
                 return ("comp", "gen", img, ((dom, ()),)) if img is not None else None
             return None
         if short in ("map", "filter", "filterfalse") and len(args) == 2:
@@ -2233,6 +2250,12 @@ def subst(t, mapping: Dict[Term, Term]):
         return t_cmp("==", subst(t[1], mapping), subst(t[2], mapping))
     if k == "same":
         return t_cmp("is", subst(t[1], mapping), subst(t[2], mapping))
+    if k == "isinstance" and isinstance(t[2], tuple):
+        x, c = subst(t[1], mapping), subst(t[2], mapping)
+        names = [y[1] for y in (c[1] if c[0] == "tuple" else [c]) if y[0] == "cls"]
+        if names and len(names) == (len(c[1]) if c[0] == "tuple" else 1):
+            return t_or(*[("isinstance", x, nm) for nm in names])
+        return ("isinstance", x, c)
     if k == "cmp":
         return t_cmp(t[1], subst(t[2], mapping), lin({}, Fraction(0)))
     if k == "not":
